@@ -59,6 +59,31 @@ to_dict = Contract(
 )
 
 
+# ---- the caller's explicit choice of key form is honoured: encrypt=False gives the plain key even when the application
+#      wallet holds secrets (only encrypt=None defers to the wallet), encrypt=True the encrypted one ----
+def _setup_wallet(it, args):
+    out = _setup(it, args)
+    args["self"].fields["wallet"] = SObj("wallet", fields={"has_secrets": True})
+    args["self"].fields["encrypted_key"] = SStr(z3.String("encrypted_key"), "str")
+    return out
+
+
+to_dict_plain = Contract(
+    "TOTP.to_dict[encrypt=False, wallet holds secrets]", f"{T}::TOTP.to_dict",
+    params={"self": SELF, "encrypt": Const(False)},
+    setup=_setup_wallet,
+    ensures=[("an explicit encrypt=False serialises the plain key although a wallet is configured", "result['key'] == self.base32_key and 'enckey' not in result")],
+    descr="wallet with secrets present; instance fields and class defaults symbolic",
+)
+to_dict_default = Contract(
+    "TOTP.to_dict[encrypt=None, wallet holds secrets]", f"{T}::TOTP.to_dict",
+    params={"self": SELF, "encrypt": Const(None)},
+    setup=_setup_wallet,
+    ensures=[("encrypt=None defers to the wallet: the key is serialised encrypted and never in the clear", "result['enckey'] == self.encrypted_key and 'key' not in result")],
+    descr="wallet with secrets present; instance fields and class defaults symbolic",
+)
+
+
 def _uri_param(name, default_expr, convert=lambda it, v: v, outside=None, inside=None):
     def ens(it, env):
         guard = None
@@ -116,7 +141,7 @@ def _adapt_setup(variant):
     return setup
 
 
-CONTRACTS = [to_dict, uri_params]
+CONTRACTS = [to_dict, to_dict_plain, to_dict_default, uri_params]
 for _variant, _raises, _ens in (
     ("ok", {"ValueError": "v is not None and (v == 0 or v < 1 or v > 1)"}, [("only supported versions are accepted", "v == 1"), ("the key is handed to the constructor", "result['key'] is not None")]),
     ("nover", {"ValueError": None}, [("a missing version is refused", "False")]),
@@ -144,6 +169,7 @@ CONTRACTS += [c for c in _c13.CONTRACTS if c.id == "TOTP.key (setter)"]  # same 
 BOUNDED = [Bounded("c15", "harness/c15.py", descr="round trips through uri/json/dict over hostile labels and class defaults; corrupted sources", timeout=900)]
 
 MUTANTS = [
+    ("to_dict: an explicit encrypt=False defers to the wallet", T, "        if encrypt is None:\n            wallet = self.wallet", "        if not encrypt:\n            wallet = self.wallet", "refute", "encrypt=False"),
     ("to_dict drops the label", T, "        if self.label:\n            state[\"label\"] = self.label\n", "", "refute"),
     ("to_dict writes the period under the wrong key", T, "            state[\"period\"] = self.period\n", "            state[\"perod\"] = self.period\n", "refute"),
     ("_to_uri_params omits non-default digits", T, "        if self.digits != 6:\n            args.append((\"digits\", str(self.digits)))\n", "        if self.digits > 6:\n            args.append((\"digits\", str(self.digits + 0)))\n", "hold"),
